@@ -214,11 +214,21 @@ func c13Composite(c *Ctx) {
 	if c.Thorough() {
 		doms = []dom{{-10, 1}, {-10, 2}, {-10, 3}, {-8, 4}, {-8, 5}, {-6, 6}, {-6, 7}, {-6, 8}, {-4, 9}, {-12, 10}, {-20, 0}, {-4, 0.5}}
 	}
+	// log2max <= 0: no interval normalization (nothing to multiply back at the end) — the full domain still needs
+	// the multiplication by the encrypted sign: negative inputs must come out negative
+	nFirst := len(doms)
+	doms = append(doms, dom{-8, 0}, dom{-6, -1}, dom{-5, -2})
+	if c.Thorough() {
+		doms = append(doms, dom{-10, -0.5}, dom{-7, -3}, dom{-12, 0})
+	}
 	for di, dm := range doms {
 		lo, hi := math.Exp2(dm.l2min), math.Exp2(dm.l2max)
 		modes := []string{"positive", "negative", "full"}
 		if !c.Thorough() {
 			modes = []string{modes[di%3], "full"}[:1+di%2]
+			if di >= nFirst {
+				modes = []string{"full", "negative"}[:1+di%2]
+			}
 		}
 		for _, mode := range modes {
 			vals := c13Sweep(c, slots, lo, hi)
